@@ -482,6 +482,29 @@ static void bulk(char *p)
       }
       for (k = 0; k < 4; k++) bulk_cmp(&r, o1[k], o2[k], k < nr ? (size_t)w * ps : 64, "kernel=ycc_rgb cs=%d width=%d num_rows=%d row=%d", cs, w, nr, k);
     }
+  } else if (!strcmp(what, "phuff")) {    /* a = 0 AC-first / 1 AC-refine prepare, c2 = seed : all Ss, Se, Al 0..13 x block families */
+    extern const int jpeg_natural_order[]; int it; short *blk = (short *)B[0];
+    unsigned short *vs = (unsigned short *)B[1], *vc = (unsigned short *)B[2]; unsigned long long cs[4], cc[4];
+    rng_s = (uint64_t)c2;
+    for (it = 0; it < 30000; it++) {
+      int k, Ss = 1 + (int)(rnd() % 63), Se = Ss + (int)(rnd() % (64 - Ss)), Sl = Se - Ss + 1, Al = (int)(rnd() % 14), fam = it % 5; size_t bs[4] = { 0, 0, 0, 0 }, bc[4] = { 0, 0, 0, 0 }; int es = 0, ec = 0;
+      for (k = 0; k < 64; k++) {
+        int v = fam == 0 ? (int)(rnd() % 2047) - 1023 : fam == 1 ? ((rnd() & 3) ? 0 : (int)(rnd() % 65535) - 32767) : fam == 2 ? (int)(rnd() % 5) - 2 :
+                fam == 3 ? ((rnd() & 1) ? (1 << Al) : -(1 << Al)) + (int)(rnd() % 3) - 1 : (int)(rnd() % 65535) - 32767;
+        blk[k] = (short)v;
+      }
+      memset(vs, 0, 512); memset(vc, 0, 512);
+      if (a == 0) { c05_phuff_first(1, blk, jpeg_natural_order + Ss, Sl, Al, vs, bs); c05_phuff_first(0, blk, jpeg_natural_order + Ss, Sl, Al, vc, bc); }
+      else { es = c05_phuff_refine(1, blk, jpeg_natural_order + Ss, Sl, Al, vs, bs); ec = c05_phuff_refine(0, blk, jpeg_natural_order + Ss, Sl, Al, vc, bc); }
+      /* canonical view: only what the encoders read -- entries at set zerobits; sign bits under the zerobits mask */
+      for (k = 0; k < 64; k++) {
+        if (!((bs[0] >> k) & 1)) { vs[k] = 0; if (a == 0) vs[k + 64] = 0; }
+        if (!((bc[0] >> k) & 1)) { vc[k] = 0; if (a == 0) vc[k + 64] = 0; }
+      }
+      cs[0] = bs[0]; cc[0] = bc[0]; cs[1] = a ? (bs[1] & bs[0]) : 0; cc[1] = a ? (bc[1] & bc[0]) : 0; cs[2] = es; cc[2] = ec; cs[3] = cc[3] = 0;
+      bulk_cmp(&r, vs, vc, 256, "kernel=encode_mcu_AC_%s_prepare Ss=%d Se=%d Al=%d family=%d values (byte/2 = k)", a ? "refine" : "first", Ss, Se, Al, fam);
+      bulk_cmp(&r, cs, cc, 32, "kernel=encode_mcu_AC_%s_prepare Ss=%d Se=%d Al=%d family=%d (bytes 0-7 zerobits, 8-15 signbits&zerobits, 16-23 EOB)", a ? "refine" : "first", Ss, Se, Al, fam);
+    }
   } else if (!strcmp(what, "quant")) {    /* divisors a..b2, all coefficients -32767..32767 step c2 (1 = exhaustive) */
     long d; short *dt = (short *)B[0], *ws = (short *)B[1], *o1 = (short *)B[2], *o2 = (short *)B[3];
     long step = c2 > 0 ? c2 : 1;
@@ -679,6 +702,25 @@ static void kernel_line(char *line)
         else { if (s) jsimd_idct_islow(&idc, &comp, cf, o, 0); else jpeg_idct_islow(&idc, &comp, cf, o, 0); }
         for (k = 0; k < 8; k++) pr_bytes(o[k], 8);
       }
+    }
+    putchar('\n');
+  } else if (!strcmp(cmd, "huff")) {
+    /* huff <seed> <ones> <last_dc> <put_buffer> <free_bits> b0 .. b63 : tables si(s) = 1 + (7 s + seed) mod 16,
+       co(s) = ones ? 2^si - 1 : (2654435761 s + 97 seed) mod 2^32 mod 2^si */
+    static unsigned dco[256], aco[256]; static unsigned char dsi[256], asi[256]; short *blk = (short *)B[0]; int ok, s;
+    long seed = nextnum(&p, &ok), ones = nextnum(&p, &ok), last_dc = nextnum(&p, &ok); unsigned long long b0; int fb0; char *e;
+    while (*p == ' ') p++; b0 = strtoull(p, &e, 10); p = e; fb0 = (int)nextnum(&p, &ok);
+    for (i = 0; i < 64; i++) blk[i] = (short)nextnum(&p, &ok);
+    for (i = 0; i < 256; i++) {
+      unsigned si = 1 + (unsigned)((7L * i + seed) % 16), sj = 1 + (unsigned)((7L * i + seed + 5) % 16);
+      unsigned long long c1 = (2654435761ULL * i + 97ULL * seed) & 0xFFFFFFFFULL, c2 = (2654435761ULL * i + 97ULL * (seed + 5)) & 0xFFFFFFFFULL;
+      asi[i] = (unsigned char)si; aco[i] = ones ? (1u << si) - 1 : (unsigned)(c1 & ((1ULL << si) - 1));
+      dsi[i] = (unsigned char)sj; dco[i] = ones ? (1u << sj) - 1 : (unsigned)(c2 & ((1ULL << sj) - 1));
+    }
+    for (s = 1; s >= 0; s--) {
+      unsigned long long b = b0; int fb = fb0, n; memset(B[2], 0x55, 2048);
+      n = c05_huff(s, blk, (int)last_dc, dco, dsi, aco, asi, &b, &fb, B[2]);
+      printf(s ? "S" : " | C"); pr_bytes(B[2], n); printf(" ; %llu %d", b, fb);
     }
     putchar('\n');
   } else if (!strcmp(cmd, "rangelimit")) {
